@@ -26,6 +26,7 @@ func init() {
 			"R5 per-count loop: the key of each stored SNP measurement is the loop variable over the requested counts and the value is LaunchDigest called with Vcpus assigned from that variable in the same iteration. " +
 			"R7 every sev.LaunchOptions object built in a function that receives the request gets Product from the request before it is used. R8 an options object created outside a loop has every field that the loop changes re-assigned before each measurement in the loop (no setting leaks from one entry to the next). R6 SignDoc: Cert, CaBundle and Timestamp are stored before the single proto.Marshal of the document and nothing is stored afterwards. " +
 			"R9 a function that assigns the SVN of one technology's request assigns the other technology's on every successful path unless that request is nil / dropped (the SVN side file reaches every endorsed technology). " +
+			"R12 (= C04.R1/R5/R7, C05.R2/R9) the structural clauses of the two measurement computations that the signed values are computed with. " +
 			"R11 every lookup into a package-level table of package tdx uses the same kind of key (none normalises the requested name where another uses it raw). " +
 			"R10 in the command layer a Context field that is loaded under its own flag test is loaded on every successful path on which that flag may be set (an early return in front of the block does not skip a requested input). " +
 			"Not covered: that each digest equals the launch measurement (C04/C05).",
@@ -41,6 +42,11 @@ var c06Suppress = map[string]string{
 }
 
 func runC06(c *Ctx) {
+	// R12 = structural clauses of C04 / C05 on which "each equal to the launch measurement of that same image for
+	// that configuration" rests: measurement order and one boot VMSA per digest (C04.R1/R7), metadata ranges
+	// (C04.R1), launch-mode dispatch and per-page sequence (C05.R9/R2).
+	c.borrow("R12/C04.", runC04, func(rule, _ string) bool { return rule == "R1" || rule == "R7" || rule == "R5" })
+	c.borrow("R12/C05.", runC05, func(rule, _ string) bool { return rule == "R9" || rule == "R2" })
 	endorsePkg := repoPath("endorse")
 	epbPkg := repoPath("proto/endorsement")
 	gm := c.fn("R0", "endorse", "GoldenMeasurement")
